@@ -38,7 +38,13 @@ func TestC02(t *testing.T) {
 		desc := func() string { return d.String() + "clause " + clause.String() }
 
 		var res = d.QF
-		if perr := hx.Safely(func() { res = d.QF.Filter(clause.Build(hx.KindMap(in))) }); perr != nil {
+		realClause := clause.Build(hx.KindMap(in))
+		if rapid.IntRange(0, 3).Draw(t, "secondcall") == 0 {
+			// the same clause value on the same frame a second time: that result counts (nothing may be left
+			// behind in the frame, its columns or the clause by the first call)
+			_ = hx.Safely(func() { _ = d.QF.Filter(realClause) })
+		}
+		if perr := hx.Safely(func() { res = d.QF.Filter(realClause) }); perr != nil {
 			t.Fatalf("Filter panicked: %v\n%s", perr, desc())
 		}
 		if res.Err != nil {
